@@ -50,8 +50,7 @@ def sentence_methods_called(w, fn):
 
 
 def run(chk):
-    w = facts.world("W")
-    chk.configs.add("W")
+    w = C.world_for(chk)
     for rid, txt in (("R15.1", "filters touch only boundaries (resp. tags); API surface"), ("R15.2", "single constant label, no read of boundary contents"),
                      ("R15.3", "rule tables of wsconst / line-break / tagger")):
         chk.rule(rid, txt)
